@@ -613,6 +613,12 @@ def agree(impl, model):
     return False, None
 
 
+def model_fn():
+    """D14 open: the pass order of the unrepaired tree (reset_values_converted before refs_validated);
+    fixed/absent: refs_validated first (after /repo 0a1d247)."""
+    return "c14_full" if any(k["id"] == "D14" for k in vlib.load_known_findings("C14")) else "c14_full_refs_first"
+
+
 def run_gen_parallel(ctx, exe, cases, tag, shards=8):
     if len(cases) < 64:
         return gen_common.run_gen(ctx, exe, cases, tag=tag)
@@ -652,7 +658,7 @@ def eval_b(ctx, cases, metas, res, tag, exe=None):
         except Exception:
             t = None
         if t is not None:
-            terms.append((cid, f"c14_full {vlib.coq_string(c['name'])} ({t})"))
+            terms.append((cid, f"{model_fn()} {vlib.coq_string(c['name'])} ({t})"))
         else:
             terms.append((cid, first_front_term(metas[cid]["adef"], c["syntax"] != "dsl")))
     return vlib.coq_eval_strings(ctx, PRE, terms, tag=tag, shard_size=120)
